@@ -48,7 +48,7 @@ def retraction_ok(lr):
         return True
     return Implies(Not(is_none(lr)), And(
         Iff(lr.firmwareRetract, is_none(lr.extrusionAmount)), Iff(lr.firmwareRetract, is_none(lr.feedRate)),
-        Implies(Not(lr.firmwareRetract), val(lr.extrusionAmount) > 0)))
+        Implies(Not(lr.firmwareRetract), (val(lr.extrusionAmount) > 0) if lr.extrusionAmount is not None else False)))
 
 
 def inv_excl(st):
@@ -67,24 +67,27 @@ def pending_empty(st):
 
 def inv_lastpos(st, P):
     """While an episode is open the remembered entry position is the printer's physical position (the printer
-    has not moved since) and lives in the current frame (domain of C03: no G92 XYZ / M206 / homing inside)."""
+    has not moved since)."""
     lp = st.lastPosition
     if lp is None:
         return Not(st.excluding)
     pos = st.position
     return Implies(st.excluding, And(Not(is_none(lp)),
         Not(is_none(lp.Z_AXIS.current)), Not(is_none(lp.X_AXIS.current)), Not(is_none(lp.Y_AXIS.current)),
-        eq(val(lp.X_AXIS.current), P.x), eq(val(lp.Y_AXIS.current), P.y), eq(val(lp.Z_AXIS.current), P.z),
-        A.same_frame(lp.X_AXIS, pos.X_AXIS), A.same_frame(lp.Y_AXIS, pos.Y_AXIS), A.same_frame(lp.Z_AXIS, pos.Z_AXIS)))
+        eq(val(lp.X_AXIS.current), P.x), eq(val(lp.Y_AXIS.current), P.y), eq(val(lp.Z_AXIS.current), P.z)))
 
 
 def inv_pos(st, P):
     """I-pos / I-E: outside an episode the printer is where the filter believes it is."""
     pos = st.position
-    # (in relative extrusion mode the value of the printer's E register is irrelevant: every E word is an offset)
     return Implies(Not(st.excluding), And(eq(P.x, val(pos.X_AXIS.current)), eq(P.y, val(pos.Y_AXIS.current)),
-                                          eq(P.z, val(pos.Z_AXIS.current)),
-                                          Implies(pos.E_AXIS.absoluteMode, eq(P.e, val(pos.E_AXIS.current)))))
+                                          eq(P.z, val(pos.Z_AXIS.current))))
+
+
+def inv_e(st, P):
+    """I-E: outside an episode the printer's E register holds the extruder coordinate the file assumes.
+    (Maintained on the C04 domain: matched retract/recover cycles; see unmatched_recovery.)"""
+    return Implies(Not(st.excluding), eq(P.e, val(st.position.E_AXIS.current)))
 
 
 def inv_all(st, P):
@@ -436,6 +439,7 @@ def _(c):
         return {"self": st, "args": args, "ghost": {"P": mk_printer(b)}}
     c.pre(pre)
     c.requires("Inv", lambda f: inv_all(f.self, f.g["P"]))
+    c.requires("I-E", lambda f: inv_e(f.self, f.g["P"]))
     c.requires("arc-samples-absolute", lambda f: True if isinstance(f.a.xyPairs, tuple) else f.self.position.X_AXIS.absoluteMode)
 
     # ---- tracking conformance: the tracked position follows the file
@@ -472,11 +476,19 @@ def _(c):
     c.ensures("C02.transparent", lambda f: Implies(And(J(f.old.self), Not(plm_D(f))),
                                                    And(result_is_only_cmd(f), J(f.self))), props=("C02",))
 
+    def unmatched_recovery(f):
+        """Outside the C04/C05 domain (matched cycles): an E-only recovery arriving while a recovery is still owed
+        (the file has already recovered, so this is extra extrusion in place, e.g. priming)."""
+        o = f.old.self
+        lr = o.lastRetraction
+        dE = val(f.self.position.E_AXIS.current) - val(o.position.E_AXIS.current)
+        owed = False if lr is None else And(Not(is_none(lr)), lr.recoverExcluded)
+        return And(Not(is_move(f)), dE > 0, owed)
+
     def e_sync(f):
         Q, log = plm_run(f)
-        return Implies(And(Not(f.self.excluding), f.old.self.position.E_AXIS.absoluteMode),
-                       eq(Q.e, val(f.self.position.E_AXIS.current)))
-    c.ensures("C04.e-register-in-sync-outside", e_sync, props=("C04",))
+        return Implies(Not(unmatched_recovery(f)), inv_e(f.self, Q))
+    c.ensures("C04.e-register-in-sync-outside", e_sync, props=("C04", "C05"))
 
     def push_exact(f):
         Q, log = plm_run(f)
